@@ -44,6 +44,12 @@ Fixpoint tot_chp (n : node) : Z :=
   match n with Meter _ kids _ => zsum (map tot_chp kids) | Chp _ p => p | _ => 0 end.
 Fixpoint tot_load (n : node) : Z :=
   match n with Meter _ kids load => zsum (map tot_load kids) + load | _ => 0 end.
+(* total power of the devices selected by [sel] *)
+Fixpoint tot_sel (sel : node -> bool) (n : node) : Z :=
+  match n with
+  | Meter _ kids _ => zsum (map (tot_sel sel) kids)
+  | BatInv _ _ p | PvInv _ p | Ev _ p | Chp _ p => if sel n then p else 0
+  end.
 Definition total (f : node -> Z) (roots : list node) : Z := zsum (map f roots).
 
 (* ------------------------------------------------------------------ classification *)
@@ -147,23 +153,47 @@ Definition producer_terms (fb : bool) (roots : list node) : list term :=
 Definition pv_terms (fb : bool) (roots : list node) : list term :=
   map (with_fallback fb 1) (dfs_grid pv_chain roots).
 
-(* PVPowerFormula / BatteryPowerFormula for ALL inverters of the type (what the pools request).
-   With fallback every inverter whose predecessor is a meter dedicated to the type is replaced by
-   that meter (dict keyed by the primary component: the meter occurs once, its inverters are the
-   fallback); without fallback the inverters themselves are summed. *)
-Fixpoint by_inverters (isx : node -> bool) (fb gm : bool) (n : node) : list term :=
+(* PVPowerFormula / BatteryPowerFormula for requested inverters ([sel]; the pools request all of
+   their type by default).  With fallback, an inverter whose predecessor is a meter dedicated to the
+   type is replaced by that meter, provided ALL successors of the meter are requested (dict keyed
+   by the primary component: the meter occurs once, its inverters are the fallback); otherwise, and
+   without fallback, the requested inverters themselves are summed.
+   (Before the fix of finding F9b the meter was taken as soon as ONE of its inverters was
+   requested: [by_inverters_before_fix].) *)
+Fixpoint by_inverters (isx sel : node -> bool) (fb gm : bool) (n : node) : list term :=
   match n with
   | Meter _ kids _ =>
-      if fb && dedicated_to isx gm n then [(1, n, kids)]
-      else flat_map (by_inverters isx fb false) kids
-  | _ => if isx n then [(1, n, [])] else []
+      if fb && dedicated_to isx gm n && forallb sel kids then [(1, n, kids)]
+      else flat_map (by_inverters isx sel fb false) kids
+  | _ => if sel n then [(1, n, [])] else []
+  end.
+Fixpoint by_inverters_before_fix (isx sel : node -> bool) (fb gm : bool) (n : node) : list term :=
+  match n with
+  | Meter _ kids _ =>
+      if fb && dedicated_to isx gm n
+      then (let req := filter sel kids in if is_nil req then [] else [(1, n, req)])
+      else flat_map (by_inverters_before_fix isx sel fb false) kids
+  | _ => if sel n then [(1, n, [])] else []
   end.
 Definition pvids_terms (fb : bool) (roots : list node) : list term :=
-  flat_map (by_inverters is_pv_inv fb (gm_of roots)) roots.
+  flat_map (by_inverters is_pv_inv is_pv_inv fb (gm_of roots)) roots.
 (* only inverters that have a battery are reachable from the requested battery ids *)
 Definition has_bats (n : node) : bool := match n with BatInv _ (_ :: _) _ => true | _ => false end.
 Definition battery_terms (fb : bool) (roots : list node) : list term :=
-  flat_map (by_inverters has_bats fb (gm_of roots)) roots.
+  flat_map (by_inverters is_bat_inv has_bats fb (gm_of roots)) roots.
+
+(* the pools over a subset: BatteryPowerFormula for the batteries of the inverters [bsel],
+   PVPowerFormula for the PV inverters [psel] (no ids = DFS for all PV chains) *)
+Definition mem (x : Z) (l : list Z) : bool := existsb (Z.eqb x) l.
+Definition bat_sel (bsel : list Z) (n : node) : bool := has_bats n && mem (nid n) bsel.
+Definition pv_sel (psel : list Z) (n : node) : bool := is_pv_inv n && mem (nid n) psel.
+Definition battery_pool_terms (fb : bool) (roots : list node) (bsel : list Z) : list term :=
+  flat_map (by_inverters is_bat_inv (bat_sel bsel) fb (gm_of roots)) roots.
+Definition pv_pool_terms (fb : bool) (roots : list node) (psel : list Z) : list term :=
+  if is_nil psel then pv_terms fb roots
+  else flat_map (by_inverters is_pv_inv (pv_sel psel) fb (gm_of roots)) roots.
+Definition battery_pool_terms_before_fix (fb : bool) (roots : list node) (bsel : list Z) : list term :=
+  flat_map (by_inverters_before_fix is_bat_inv (bat_sel bsel) fb (gm_of roots)) roots.
 
 Fixpoint ev_nodes (n : node) : list node :=
   match n with Meter _ kids _ => flat_map ev_nodes kids | Ev _ _ => [n] | _ => [] end.
@@ -211,11 +241,29 @@ Fixpoint wf_node (gm : bool) (n : node) : bool :=
 Definition wf (roots : list node) : bool :=
   negb (is_nil roots) && forallb (fun r => negb (is_chp r)) roots && forallb (wf_node (gm_of roots)) roots.
 
+(* Meters, inverters and EV chargers have a power stream; a CHP has none (the data sourcing actor
+   rejects the category), which is why CHPs must be metered: no formula may read a CHP itself. *)
+Definition reads_measurable (ts : list term) : bool := forallb (fun t => negb (is_chp (t_node t))) ts.
+
 (* trigger of the (fixed) finding F9: no grid meter(s), and the consumer DFS meets a meter that
    has a non-consumer chain below it *)
 Definition f9_trigger (roots : list node) : bool :=
   negb (are_grid_meters roots)
   && existsb (fun m => negb (is_nil (dfs non_consumer (gm_of roots) m))) (dfs_grid consumer_component roots).
+
+(* ------------------------------------------------------------------ reading by component id *)
+(* The formula engine subscribes to component IDS.  [eval] above sums the readings of the nodes the
+   terms name; [eval_by_id] looks every id up in the tree (proofs/GraphIds.v: the same number when
+   the component ids are distinct). *)
+Fixpoint nodes (n : node) : list node :=
+  n :: match n with Meter _ kids _ => flat_map nodes kids | _ => [] end.
+Definition all_nodes (roots : list node) : list node := flat_map nodes roots.
+Definition lookup (roots : list node) (i : Z) : option node := find (fun n => nid n =? i) (all_nodes roots).
+Definition reading_of (roots : list node) (i : Z) : Z :=
+  match lookup roots i with Some n => reading n | None => 0 end.
+Definition by_id (t : term) : Z * Z := (t_sign t, nid (t_node t)).
+Definition eval_by_id (roots : list node) (ts : list (Z * Z)) : Z :=
+  zsum (map (fun t => fst t * reading_of roots (snd t)) ts).
 
 (* ------------------------------------------------------------------ observation (for the case files) *)
 Fixpoint insertZ (x : Z) (l : list Z) : list Z :=
